@@ -255,7 +255,12 @@ DDCache(cf, cache, h, i) ==
            add == e.rw # 0 \/ ~NeedsFb(cf.inner) \/ "dd_inflight" \in Mirror
        IN DDCache(cf, IF add THEN [cache EXCEPT ![KeyOf(cf, e.dna)] = Append(@, e.rw)] ELSE cache, h, i + 1)
 
-RecoverG(c, h) == LET cf == Conf(c) IN
+(* v: which of the admissible values the wrapped evolution's proposal counter takes when duplicates were *)
+(* dropped ("net" = the history length, "exact" = including the dropped proposals): the statement does  *)
+(* not fix it (the observable state compares the counter net of the lost proposals).                    *)
+RecVariants(c, h) == IF Conf(c).fam = "dedup" /\ NeedsFb(Conf(c).inner) /\ SumDraws(h) # Len(h)
+                     THEN {"net", "exact"} ELSE {"net"}
+RecoverG(c, h, v) == LET cf == Conf(c) IN
   CASE cf.fam = "sweep"  -> [np |-> Len(h), nf |-> NumRw(h), last |-> IF h = <<>> THEN 0 ELSE h[Len(h)].dna]
     [] cf.fam = "random" -> [np |-> Len(h), nf |-> NumRw(h), rng |-> Len(h)]
     [] cf.fam = "evo"    -> EvoRecover(c, h)
@@ -266,8 +271,9 @@ RecoverG(c, h) == LET cf == Conf(c) IN
                       ELSE CASE icf.fam = "sweep"  -> [np |-> Len(h), nf |-> NumRw(h), last |-> IF h = <<>> THEN 0 ELSE h[Len(h)].dna]
                              [] icf.fam = "random" -> [np |-> Len(h), nf |-> NumRw(h),
                                                        rng |-> IF "dd_draws" \in Mirror THEN Len(h) ELSE SumDraws(h)]
-                             [] icf.fam = "evo"    -> EvoRecover(ic, h)
-         IN [np |-> Len(h), nf |-> NumRw(h), cache |-> DDCache(cf, [k \in 1..D |-> <<>>], h, 1), in |-> inner, lost |-> 0]
+                             [] icf.fam = "evo"    -> [EvoRecover(ic, h) EXCEPT !.np = IF v = "exact" THEN SumDraws(h) ELSE @]
+         IN [np |-> Len(h), nf |-> NumRw(h), cache |-> DDCache(cf, [k \in 1..D |-> <<>>], h, 1), in |-> inner,
+             lost |-> IF "dd_inner" \notin Mirror /\ icf.fam = "evo" /\ v = "exact" THEN SumDraws(h) - Len(h) ELSE 0]
 
 -----------------------------------------------------------------------------
 (* Observable state (what the property statement lists), as a record of clauses. *)
@@ -305,7 +311,9 @@ KidLen(c) == LET cf == Conf(c) IN
 Oracles(c) == [ext : [1..ExtLen(c) -> 1..D], kids : [1..KidLen(c) -> 1..D]]
 
 Init == /\ cfg \in Algs
-        /\ pm \in PModes
+        \* when the DNA is persisted only matters for algorithms that write metadata at feedback time
+        /\ pm \in (IF NeedsFb(cfg) \/ (Conf(cfg).fam = "dedup" /\ NeedsFb(Conf(cfg).inner)) \/ "feedback" \notin PModes
+                   THEN PModes ELSE {"feedback"})
         /\ stream = <<>>
         /\ alg = NewG(cfg)
         /\ hist = <<>>
@@ -348,7 +356,7 @@ CrashRecover ==
   \* a Deduping.propose that gave up (StopIteration) consumed inner proposals that leave no trace in the
   \* history, and the search is over at that point: recovery after it is not explored
   /\ stopped => Conf(cfg).fam # "dedup"
-  /\ alg' = RecoverG(cfg, hist)
+  /\ \E v \in RecVariants(cfg, hist) : alg' = RecoverG(cfg, hist, v)
   /\ ncrash' = ncrash + 1
   /\ act' = <<"Crash">>
   /\ obs' = ObsG(cfg, alg')
